@@ -9,15 +9,18 @@ def sh(cmd, cwd=None, timeout=3000):
     return p.returncode, (p.stdout + p.stderr)
 def main():
     only = sys.argv[1:]
-    for src in sorted(glob.glob("/tmp/wt/C*-out/[0-9]")):
+    for src in sorted(glob.glob("/tmp/wt/C*-out/[0-9]")) + sorted(glob.glob("/tmp/wt[0-9]/C*-out/[0-9]")):
         pid = src.split("/")[3].replace("-out", "")
         n = os.path.basename(src)
-        name = "%s-%s" % (pid, n)
+        wave = src.split("/")[2].replace("wt", "")
+        name = "%s-%s" % (pid, n) if wave == "" else "%s-w%s-%s" % (pid, wave, n)
         if only and name not in only and pid not in only: continue
         dst = "/verif/seeded/" + name
         if os.path.exists(os.path.join(dst, "meta.json")) and not only: continue
         meta = json.load(open(os.path.join(src, "meta.json")))
         wt = tempfile.mkdtemp(prefix="val-", dir="/tmp/wt")
+        for k in ("copy_to",):
+            meta["demo"][k] = meta["demo"][k].split()[0].lstrip("/")
         os.rmdir(wt)
         res = {"name": name}
         try:
